@@ -14,6 +14,7 @@ DECIDED = ("The decoder BookMovesIter::next is extracted from MIR as a 4-case su
            "from INITIAL_BOOOK_MOVES (and from EMPTY_BOOK_MOVES): R1 every index read is inside the table, every link is strictly decreasing (so every traversal "
            "terminates), no arithmetic on the walk overflows, no unwrap fails; R2 IntoIterator/constants plumb the indices through unchanged; R3 every one of the "
            "edges, replayed from the standard position on the checker's reference rules, is a legal move and not a pawn reaching the last rank.")
+DECIDED = DECIDED + " R4 the root cursor of the book is handed out only on paths that established 'no board given' (the board then is Board::standard()) or equality of the WHOLE board with Board::standard() (edge dominance in the consumer's CFG)."
 NOT_DECIDED = "nothing of the statement; trusted: the reference rules in analysis/chessref.py (perft-checked to depth 4 in selftest) and the K4 extractor"
 EXPLANATION = ("Constant data + extracted summary: the BOOK words are the compiler's evaluation of the static; the traversal is driven by the decoder's own summary evaluated on "
                "concrete indices (evaluation of the summary, not of the program), so a change of either the data or the decoder is followed faithfully.")
